@@ -1,26 +1,26 @@
 (* C10 proofs, part 10: the length check of tcp_cache_service::session::store
 
-       if( key_len + data_len + triggers_len != hin_.size || key_len == 0 )  -> error
+       if( uint64_t(key_len) + data_len + triggers_len != hin_.size || key_len == 0 )  -> error
 
-   is evaluated in uint32 (the model keeps the wrap: srv_store).  session::on_header_in has read exactly hin_.size
-   payload bytes before store() runs (frame_ok).  Without wrap-around the check is exact: the three regions the code
-   reads afterwards partition the payload.  With wrap-around it passes for frames whose regions lie outside the
-   payload (the code then reads data_in_.begin()+key_len+data_len past the end of the vector): refutation witness
-   below, replayed on the implementation (docs/C10_wrap.case).  A frame built by tcp_cache::store for contents shorter
-   than 2^32 bytes never wraps. *)
+   Since /repo b527961 the sum is evaluated in 64 bits (three 32-bit fields cannot overflow it): the model's srv_store
+   compares the integers.  session::on_header_in has read exactly hin_.size payload bytes before store() runs (frame_ok).
+   The check is exact for EVERY frame: when it passes, the three regions the code reads afterwards partition the payload and
+   the key is non-empty.  (Before the repair the sum was taken in uint32 and a 41-byte frame whose sum wrapped made the
+   server read 4 GiB behind the frame: finding store-length-sum-wraps, now `fixed:`; that frame is kept as a regression
+   Example and as corpus/C10/wrap_regress.case - it must be answered `error` with the server alive.) *)
 From CppcmsV Require Import Base.Tac C10.Defs C10.Proofs C10.Codec.
 Local Open Scope N_scope.
 
 Definition frame_ok (h : hdr) (p : bytes) : Prop := hdr_ok h /\ lenN p = h_size h.
 (* the check of session::store passes (same expression as in srv_store) *)
 Definition store_check (h : hdr) : bool :=
-  negb (negb ((h_u2 h + h_u3 h + h_u4 h) mod W32 =? h_size h) || (h_u2 h =? 0)).
+  negb (negb (h_u2 h + h_u3 h + h_u4 h =? h_size h) || (h_u2 h =? 0)).
 Definition store_sum (h : hdr) : N := h_u2 h + h_u3 h + h_u4 h.
 
 Lemma srv_store_refuses h p c : store_check h = false -> srv_store h p c = (hdr0 op_error, [], c).
 Proof.
   unfold store_check, srv_store. cbv zeta. intros H.
-  destruct (negb ((h_u2 h + h_u3 h + h_u4 h) mod W32 =? h_size h) || (h_u2 h =? 0)); [reflexivity|discriminate H].
+  destruct (negb (h_u2 h + h_u3 h + h_u4 h =? h_size h) || (h_u2 h =? 0)); [reflexivity|discriminate H].
 Qed.
 Lemma srv_store_accepts h p c :
   store_check h = true ->
@@ -32,22 +32,13 @@ Lemma srv_store_accepts h p c :
     end.
 Proof.
   unfold store_check, srv_store. cbv zeta. intros H.
-  destruct (negb ((h_u2 h + h_u3 h + h_u4 h) mod W32 =? h_size h) || (h_u2 h =? 0)); [discriminate H|reflexivity].
+  destruct (negb (h_u2 h + h_u3 h + h_u4 h =? h_size h) || (h_u2 h =? 0)); [discriminate H|reflexivity].
 Qed.
 
-Lemma store_check_mod h : store_check h = true -> store_sum h mod W32 = h_size h /\ h_u2 h <> 0.
+Lemma store_check_eq h : store_check h = true -> store_sum h = h_size h /\ h_u2 h <> 0.
 Proof.
   unfold store_check, store_sum. intros H. apply negb_true_iff in H. apply orb_false_iff in H. destruct H as [H1 H2].
   apply negb_false_iff in H1. apply N.eqb_eq in H1. apply N.eqb_neq in H2. split; assumption.
-Qed.
-
-(* the check passes exactly when the (unbounded) sum is the payload length, or exceeds it by 2^32 or 2^33 *)
-Lemma store_check_cases h p :
-  frame_ok h p -> store_check h = true ->
-  store_sum h = lenN p \/ store_sum h = lenN p + W32 \/ store_sum h = lenN p + 2 * W32.
-Proof.
-  intros [(_ & Hs & _ & _ & _ & _ & H2 & H3 & H4 & _) L] C. apply store_check_mod in C. destruct C as [C _].
-  rewrite L. unfold store_sum in *. unfold W32 in *. lia.
 Qed.
 
 Lemma skipn_add {A} a b (l : list A) : skipn (a + b) l = skipn b (skipn a l).
@@ -64,55 +55,46 @@ Proof.
   - rewrite !skipn_length. lia.
 Qed.
 
-(* without wrap-around the check is exact *)
+(* the check is exact, for every frame (no hypothesis on the sizes) *)
 Lemma store_check_exact h p :
-  frame_ok h p -> store_check h = true -> store_sum h < W32 ->
+  lenN p = h_size h -> store_check h = true ->
   store_sum h = lenN p /\
   p = take (h_u2 h) p ++ take (h_u3 h) (drop (h_u2 h) p) ++ take (h_u4 h) (drop (h_u2 h + h_u3 h) p) /\
   take (h_u2 h) p <> [].
 Proof.
-  intros F C LT. pose proof (store_check_mod h C) as [M NZ]. destruct F as [OK L].
-  rewrite N.mod_small in M by exact LT.
+  intros L C. pose proof (store_check_eq h C) as [M NZ].
   assert (store_sum h = lenN p) as E by congruence.
   split; [exact E|]. split; [apply split3; exact E|].
   intros H. apply (f_equal (@length N)) in H. unfold take in H. rewrite firstn_length in H. cbn [length] in H.
   unfold store_sum, lenN in E. lia.
 Qed.
-
-(* a size limit under which no wrap is possible: frames shorter than 2^31 bytes whose three length fields do not exceed
-   the frame size each (a per-field check); at 2^31 the per-field check is not enough (witness below, not replayable) *)
-Lemma store_check_exact_small h p :
-  frame_ok h p -> store_check h = true -> h_size h < 2147483648 ->
-  h_u2 h <= h_size h -> h_u3 h <= h_size h -> h_u4 h <= h_size h -> store_sum h = lenN p.
+(* and complete: a frame whose three lengths add up to its payload, with a non-empty key, passes *)
+Lemma store_check_complete h : store_sum h = h_size h -> h_u2 h <> 0 -> store_check h = true.
 Proof.
-  intros F C S A B D. destruct (store_check_cases h p F C) as [E|[E|E]]; [exact E| |];
-    destruct F as [_ L]; rewrite L in E; unfold store_sum, W32 in E; lia.
+  unfold store_check, store_sum. intros E NZ. rewrite E, N.eqb_refl. apply N.eqb_neq in NZ. rewrite NZ. reflexivity.
 Qed.
 
-(* refutation: a frame of one payload byte passes the check although its value region would end 2^32 bytes after the frame *)
+(* regression: the frame that crashed the server before b527961 (key_len=1, data_len=2^32-1, triggers_len=1, one payload
+   byte) is refused and changes nothing - on every server state *)
 Definition wrap_hdr : hdr := mkH op_store 1 0 0 2000 0 1 4294967295 1 0.
-Lemma store_check_wraps :
-  exists h p, frame_ok h p /\ store_check h = true /\ lenN p < h_u2 h + h_u3 h /\
-              fst (fst (srv_handle 1000 h p c_empty)) = hdr0 op_done.
+Lemma wrapping_frame_refused now c : srv_handle now wrap_hdr [107] c = (hdr0 op_error, [], c).
 Proof.
-  exists wrap_hdr, [107]. split; [|split; [vm_compute; reflexivity|split; [vm_compute; reflexivity|]]].
-  - split; [|reflexivity]. vm_compute. repeat split; reflexivity.
-  - unfold srv_handle. change (h_op wrap_hdr =? op_fetch) with false. change (h_op wrap_hdr =? op_rise) with false.
-    change (h_op wrap_hdr =? op_clear) with false. change (h_op wrap_hdr =? op_store) with true. cbv iota.
-    rewrite srv_store_accepts by (vm_compute; reflexivity).
-    unfold take, drop. change (N.to_nat (h_u2 wrap_hdr)) with 1%nat.
-    assert (skipn (N.to_nat (h_u2 wrap_hdr + h_u3 wrap_hdr)) [107] = []) as ->.
-    { apply skipn_all2. cbn [length]. change (h_u2 wrap_hdr + h_u3 wrap_hdr) with 4294967296. lia. }
-    rewrite firstn_nil. reflexivity.
+  unfold srv_handle. change (h_op wrap_hdr =? op_fetch) with false. change (h_op wrap_hdr =? op_rise) with false.
+  change (h_op wrap_hdr =? op_clear) with false. change (h_op wrap_hdr =? op_store) with true. cbv iota.
+  apply srv_store_refuses. vm_compute. reflexivity.
 Qed.
-(* the per-field bound does not help from 2^31 on: key, value and trigger region of 2^31 bytes each in a 2^31 byte frame *)
-Lemma store_check_wraps_with_bounded_fields :
-  let h := mkH op_store 2147483648 0 0 0 0 2147483648 2147483648 2147483648 0 in
-  hdr_ok h /\ store_check h = true /\ h_u2 h <= h_size h /\ h_u3 h <= h_size h /\ h_u4 h <= h_size h /\
-  store_sum h = 3 * h_size h.
-Proof. cbv zeta. vm_compute. repeat split; try reflexivity; discriminate. Qed.
+(* more generally: no frame whose sum exceeds its payload is accepted, whatever the sum is modulo 2^32 *)
+Lemma oversized_sum_refused now h p c :
+  h_op h = op_store -> lenN p = h_size h -> lenN p < store_sum h -> srv_handle now h p c = (hdr0 op_error, [], c).
+Proof.
+  intros O L G. unfold srv_handle. rewrite O.
+  change (op_store =? op_fetch) with false. change (op_store =? op_rise) with false.
+  change (op_store =? op_clear) with false. change (op_store =? op_store) with true. cbv iota.
+  apply srv_store_refuses. unfold store_check, store_sum in *.
+  destruct (N.eqb_spec (h_u2 h + h_u3 h + h_u4 h) (h_size h)) as [E|E]; [lia|reflexivity].
+Qed.
 
-(* the frames tcp_cache::store builds never wrap when the contents are shorter than 2^32 bytes *)
+(* the frames tcp_cache::store builds (contents shorter than 2^32 bytes) are well-formed and pass *)
 Lemma client_store_frame_exact k v trg dl :
   lenN (k ++ v ++ enc_trigs trg) < W32 ->
   let h := fst (enc_store k v trg dl) in let p := snd (enc_store k v trg dl) in
